@@ -175,8 +175,13 @@ func rawState(l *sqlLexer) stateFn {
 		case '-':
 			nextRune, width := utf8.DecodeRuneInString(l.src[l.pos:])
 			if nextRune == '-' {
-				l.pos += width
-				return oneLineCommentState
+				// as the parser reads it: -- opens a comment only in front of
+				// white space or the end of the text (5--1 is 5 - (-1))
+				after, afterWidth := utf8.DecodeRuneInString(l.src[l.pos+width:])
+				if afterWidth == 0 || after == ' ' || after == '\t' || after == '\n' || after == '\r' {
+					l.pos += width
+					return oneLineCommentState
+				}
 			}
 		case '/':
 			nextRune, width := utf8.DecodeRuneInString(l.src[l.pos:])
@@ -375,12 +380,7 @@ func multilineCommentState(l *sqlLexer) stateFn {
 		l.pos += width
 
 		switch r {
-		case '/':
-			nextRune, width := utf8.DecodeRuneInString(l.src[l.pos:])
-			if nextRune == '*' {
-				l.pos += width
-				l.nested++
-			}
+		// (the parser does not nest block comments: /* a /* b */ ends here)
 		case '*':
 			nextRune, width := utf8.DecodeRuneInString(l.src[l.pos:])
 			if nextRune != '/' {
